@@ -65,6 +65,7 @@ package_info _ =
   let ExtTriple: int->string->bool->string
   let ExtZero<T>: int->string->[]T
   let ExtConv<T, U>: int->string->T*U
+  let ExtTag<L, T>: T->int->[]L
   let ExtLogger: string->string->(string->())
   let ExtPrinter: string->(string->())
   let ExtAdder: int->(int->int)
@@ -148,10 +149,10 @@ let mkGPair () =
   {GFst=7; GSnd="seven"}
 
 let mkGGen a b =
-  {GFst=a; GSnd=b}
+  {GSnd=b; GFst=a}
 
 let mkGTrip (x:int) =
-  {GT1=x; GT2="t"; GT3=true}
+  {GT3=true; GT1=x; GT2="t"}
 
 let useGPair () =
   let p = {GFst="k"; GSnd=3}
@@ -322,6 +323,16 @@ let counter () =
   let c = extpkg.NewCounter ()
   extpkg.Bump c 5
 
+let tagFull () =
+  ExtTag<string> true 2
+
+let tagPartial () =
+  let t = ExtTag<bool> "x"
+  t 3
+
+let tagPiped () =
+  1 |> ExtTag<int> 5
+
 let fnFull () =
   ExtLogger "A" "b"
 
@@ -387,12 +398,15 @@ let xTwoPiped () =
 	cl.WriteString("\tfmt.Println(callsFull(), callsPartial(), callsPiped(), callsExplicit(), callsInferred(), callsUnit())\n\tcallsProc()\n")
 	cl.WriteString("\tfmt.Println(callsTriple0(), callsTriple1(), callsTriple2(), callsTriplePipe())\n")
 	cl.WriteString("\tfmt.Println(callsPkg(), callsPkgPartial(), callsPkgPipe(), counter(), callsComputed())\n")
+	// a PARTIAL explicit type-argument list: the leading type parameters are given, the rest is inferred by Go
+	cl.WriteString("\tfmt.Printf(\"%T/%d %T/%d %T/%d\\n\", tagFull(), len(tagFull()), tagPartial(), len(tagPartial()), tagPiped(), len(tagPiped()))\n")
 	// results that are functions (a parenthesised function type at the end of a signature is a Go func
 	// VALUE that is returned): used from Go by the documented shape
 	cl.WriteString("\tfnFull()(\"1\")\n\tfnPartialPiped()(\"2\")\n\tfnBarePiped()(\"3\")\n\tfmt.Println(fnAdderPiped()(10), fnUse())\n\tfnNestPiped()(1)(\"n\")\n}\n")
 	exp.WriteString("ExtAdd(1,2) ExtAdd(10,5) ExtAdd(4,3) ExtShow(7) ExtShow(s) 99\nExtProc(p)\n")
 	exp.WriteString("1/w/true 1/x/true 2/y/false 3/z/true\n")
 	exp.WriteString("42 a+b+c p+q+r 105 ExtAdd(7,5)/ExtAdd(7,8)\n")
+	exp.WriteString("[]string/2 []bool/3 []int/1\n")
 	exp.WriteString("log A b 1\nlog B : 2\nprint C 3\nprint d e\n13 11\nnest 4 1 n\n")
 	return foB.String(), cl.String(), exp.String(), unions, recs
 }
@@ -412,6 +426,7 @@ func ExtProc(s string)                 { fmt.Printf("ExtProc(%s)\n", s) }
 func ExtTriple(a int, b string, c bool) string { return fmt.Sprintf("%d/%s/%v", a, b, c) }
 func ExtZero[T any](n int, s string) []T { return make([]T, n) }
 func ExtConv[T any, U any](n int, s string) frt.Tuple2[T, U] { var t T; var u U; return frt.NewTuple2(t, u) }
+func ExtTag[L any, T any](v T, n int) []L { return make([]L, n) }
 func ExtLogger(a string, b string) func(string) { return func(c string) { fmt.Println("log", a, b, c) } }
 func ExtPrinter(a string) func(string) { return func(c string) { fmt.Println("print", a, c) } }
 func ExtAdder(a int) func(int) int     { return func(b int) int { return a + b } }
